@@ -369,6 +369,8 @@ inductive U
   | col (name : String) (ty : Ty)
   | li (i : Int)
   | ls (s : String)
+  | pi (i : Int)        -- a plain Python int used directly as an operand (`col + 5`, `5 - col`)
+  | ps (s : String)     -- a plain Python str used directly as an operand
   | ln (s : String)
   | lb (b : Bool)
   | null | true_ | false_
@@ -431,12 +433,21 @@ def BinK.reflected : BinK → Option BinK
   | .lt => some .gt | .gt => some .lt | .le => some .ge | .ge => some .le
   | _ => none
 
+def isPyLit : U → Bool
+  | .pi _ => true
+  | .ps _ => true
+  | _ => false
+
 mutual
 /-- apply the API calls of `u` in Python's evaluation order -/
 def build : U → Option SaExpr
   | .col n ty => some (.col n ty)
   | .li i => some (.bind (.int i) .int)
   | .ls s => some (.bind (.str s) .str)
+  -- `expr._bind_param(op, value)`: a BindParameter typed by `coerce_compared_value`, which for
+  -- int / str values has the affinity of the value
+  | .pi i => some (.bind (.int i) .int)
+  | .ps s => some (.bind (.str s) .str)
   | .ln s => some (.bind (.num s) .num)
   | .lb b => some (.bind (.bool b) .bool)
   | .null => some .null
@@ -449,7 +460,9 @@ def build : U → Option SaExpr
       else
         match k.reflected with
         | some k' =>
-          if pyReflected x y then booleanCompare y k'.op x (negateOp k'.op) none
+          -- a plain Python value on the left has no `__lt__` for elements: Python calls the
+          -- reflected method of the right operand (`5 < col` is `col > 5`)
+          if pyReflected x y || isPyLit a then booleanCompare y k'.op x (negateOp k'.op) none
           else booleanCompare x k.op y (negateOp k.op) none
         | none => booleanCompare x k.op y (negateOp k.op) none
     | _, _ => none
